@@ -88,7 +88,11 @@ CLAIMS = {
          "diagnostic is an identity, a queued TypeEqual / StructFieldAccess, a binder, an inst_ty instance or a tuple component — a "
          "second induction over the mutual recursor, Lemmas/InferJustGo.lean::go_just) and infer_sound / infer_sound_nofield (the "
          "headline WITHOUT the certificate: no diagnostic => the body is well typed for every binder table that gives each binder "
-         "its type; field accesses judged only by 'the constraint was queued and solve ended clean'). Tie: gv infer observes the REAL typecheck_fn through one cfg(goml_verif) observer hook on "
+         "its type; field accesses judged only by 'the constraint was queued and solve ended clean'; method-call forms x.m(a) / "
+         "T::m(x, a) and array literals are in the model and the tie and under infer_total / infer_store_invariant, but excluded "
+         "from infer_sound by the explicit flag r.gen.outside = false). The tie also runs over the real corpus: 232 top-level "
+         "functions, 110 inside the model and compared, 122 outside (constructors, struct literals, struct/constructor patterns, "
+         "trait static calls, typed-int patterns). Tie: gv infer observes the REAL typecheck_fn through one cfg(goml_verif) observer hook on "
          "generated function bodies and compares queue before solve, fresh-key counts, diagnostic classes, recorded and final type of "
          "every node with gomlmodel infer. Oracle without the model: every accepted generated function's REAL final types satisfy Wt; "
          "every program with one injected error of 18 kinds is rejected by the typer.",
